@@ -341,6 +341,8 @@ def build(tier, seed):
     for family, spec in c08.FAMILIES.items():
         for call in spec['calls']:
             obs.append(c08.broadcast_ob(family, 'price', call, PROP))
+    for family in ('american_binary', 'lookback'):
+        obs.append(c08.mixed_batch_ob(family, 'price', PROP))
     return {
         'obligations': obs, 'functions': FUNCTIONS, 'assumptions': ASSUMPTIONS, 'level': 'proof',
         'trusted_base': ['Feynman-Kac / uniqueness theorem (not mechanised)', 'pfv executor + torch contract shim', 'pfv/diff.py', 'sympy expand/cancel/limit', 'z3 QF_NRA', 'mpmath 50-digit evaluation'],
